@@ -691,6 +691,43 @@ func (m *Machine) observeString(v Value) string {
 	return describe(v)
 }
 
+// sprintfNoArgs: fmt.Sprintf(format) with symbolic format bytes and no operands (the `Sprintf(a+b)` slip): text
+// without '%' is copied; "%%" gives "%"; a trailing '%' gives "%!(NOVERB)"; '%' followed by an ASCII letter gives
+// "%!<verb>(MISSING)". Flags, widths, precisions, argument indexes and non-ASCII verbs end the path as unsupported.
+func (m *Machine) sprintfNoArgs(f StrVal) Value {
+	var out []*smt.Term
+	lit := func(s string) {
+		for i := 0; i < len(s); i++ {
+			out = append(out, m.mkByte(s[i]))
+		}
+	}
+	bs := f.B
+	for i := 0; i < len(bs); i++ {
+		if !m.Branch(smt.Eq(bs[i], m.mkByte('%'))) {
+			out = append(out, bs[i])
+			continue
+		}
+		if i+1 == len(bs) {
+			lit("%!(NOVERB)")
+			break
+		}
+		v := bs[i+1]
+		i++
+		if m.Branch(smt.Eq(v, m.mkByte('%'))) {
+			lit("%")
+			continue
+		}
+		isLetter := smt.Or(smt.And(smt.BvUle(m.mkByte('a'), v), smt.BvUle(v, m.mkByte('z'))), smt.And(smt.BvUle(m.mkByte('A'), v), smt.BvUle(v, m.mkByte('Z'))))
+		if !m.Branch(isLetter) {
+			m.unsupported("fmt.Sprintf: symbolic format with a flag, width or non-letter verb after '%%'")
+		}
+		lit("%!")
+		out = append(out, v)
+		lit("(MISSING)")
+	}
+	return StrVal{B: out}
+}
+
 // sprintf evaluates fmt.Sprintf when everything is concrete and the verbs are simple.
 func (m *Machine) sprintf(a []Value) Value {
 	f, ok := a[0].(StrVal)
@@ -699,6 +736,9 @@ func (m *Machine) sprintf(a []Value) Value {
 	}
 	format, ok := f.Concrete()
 	if !ok {
+		if sv0, isSl := a[1].(SliceVal); isSl && sv0.Len == 0 && f.Abs == nil && len(f.B) <= 64 {
+			return m.sprintfNoArgs(f)
+		}
 		return Poison{"fmt.Sprintf symbolic format"}
 	}
 	sv := a[1].(SliceVal)
